@@ -165,12 +165,18 @@ def run(ctx: Ctx) -> None:
     try:
         from .c12 import OPT_CHOICES, ATTR_ROUTE, enc_val, enc_inst
         lines, impl = [], []
+        base_opts = {p_: dict(MarkdownIt(p_).options) for p_ in ("commonmark", "js-default", "zero")}
         for _ in range(200 if quick else 3000):
             preset = rng.choice(["commonmark", "js-default", "zero"])
             key, vs = rng.choice(OPT_CHOICES)
             v = rng.choice(vs)
             m1 = MarkdownIt(preset, {key: v})
             m2 = MarkdownIt(preset)
+            if dict(m2.options) != base_opts[preset]:
+                d_ = {k_: (base_opts[preset].get(k_), w_) for k_, w_ in dict(m2.options).items() if base_opts[preset].get(k_) != w_}
+                ctx.fail("option-routes", f"constructing MarkdownIt({preset!r}, {{{key!r}: {v!r}}}) changed what a later plain MarkdownIt({preset!r}) gets: {d_}",
+                         {"option": key, "value": repr(v), "preset": preset, "leaked": {k_: repr(w_) for k_, w_ in d_.items()}})
+                base_opts[preset] = dict(m2.options)
             m2.options[key] = v
             outs = [enc_inst(m1), enc_inst(m2)]
             reqs = [f"world new:{enc(preset)}:{enc(key)}={enc_val(v)} q:0", f"world new:{enc(preset)}:~ set:0:item:{enc(key)}:{enc_val(v)} q:0"]
